@@ -419,6 +419,7 @@ type attackSim struct {
 	drainSel    int
 	lastRel     int
 	bpSkips     map[int]int
+	bpRelStep   map[int]int // actor -> controller step of its last release from a breakpoint
 	starterDone bool
 	consIdle    []*simrt.Arrival
 
@@ -443,7 +444,7 @@ func (s *attackSim) inflight() int { return s.S - s.C }
 
 func runAttack(t *testing.T, rc *simrt.Config, prop string, tape *simrt.Tape, keep bool) (out simrt.Outcome) {
 	s := &attackSim{t: t, tape: tape, prop: prop, bySeq: map[int64]int{}, seen: map[uint64]resultSnap{}, trigStep: -1,
-		actorStop: map[int]*stopCall{}, loopDeadline: -1, stats: map[string]int{}, bpSkips: map[int]int{}}
+		actorStop: map[int]*stopCall{}, loopDeadline: -1, stats: map[string]int{}, bpSkips: map[int]int{}, bpRelStep: map[int]int{}}
 	pv := bubble(t, func() { s.run(keep) })
 	if s.w != nil {
 		s.w.Deactivate()
